@@ -58,8 +58,9 @@ void harness(void) {
 	memcpy(ctx.x, IN.x, sizeof(ctx.x));
 	ctx.rounds = ROUNDS;
 
-	uint8_t ks[64];
-	ref_chacha_block(IN.state, ROUNDS, ks);
+	/* reference key stream words: rounds(state) + state, RFC 8439 2.3 */
+	uint32_t ksw[16];
+	ref_chacha_block_words(IN.state, ROUNDS, ksw);
 	uint64_t c0 = ((uint64_t)IN.state[13] << 32) | IN.state[12];
 
 	uint8_t *dobj = v_buf(IN.dst0, OFFD + 64);
@@ -78,11 +79,19 @@ void harness(void) {
 
 	KERNEL(&ctx, src, dst);
 
+	/* The claim "dst == src ^ reference key stream" is decided as the conjunction of two obligations about this
+	 * one call, each for all inputs (jobs.py gives them to different back ends):
+	 *  KS:  the key stream block the kernel leaves in ctx->x[] equals the reference (term-level: cvc5),
+	 *  XOR: dst == src ^ little-endian bytes of that ctx->x[] (bit-level, no rounds to reason about: SAT). */
+	for (int i = 0; i < 16; i++)
+		V_ASSERT(ctx.x[i] == ksw[i], "KS: key stream words in ctx->x == rounds(state)+state of the RFC-order reference");
+	uint8_t ks[64];
+	for (int i = 0; i < 16; i++) ref_store32le(ks + 4 * i, ctx.x[i]);
 	for (int i = 0; i < 64; i++) {
 #if SRCMODE == 2
-		V_ASSERT(dst[i] == ks[i], "src==NULL: dst is the reference key stream block");
+		V_ASSERT(dst[i] == ks[i], "XOR: src==NULL: dst is the little-endian key stream block");
 #else
-		V_ASSERT(dst[i] == (uint8_t)(IN.src[i] ^ ks[i]), "dst == src xor reference key stream block");
+		V_ASSERT(dst[i] == (uint8_t)(IN.src[i] ^ ks[i]), "XOR: dst == src xor little-endian key stream block");
 #endif
 	}
 	for (int i = 0; i < OFFD; i++)
